@@ -3,7 +3,6 @@
 #include "../common/engine.hpp"
 #include "../common/keygen.hpp"
 #include "pgm/pgm_index.hpp"
-#include <omp.h>
 #include <sstream>
 
 namespace vf {
@@ -90,7 +89,7 @@ CaseResult run_static(const RunCtx &ctx, TapeReader &t, unsigned size_hint) {
     }
     if (!ctx.execute) return res;
 
-    omp_set_num_threads(meta.threads);
+    vf_set_threads(meta.threads);
     std::vector<pgm::verif::SegSession<K>> sessions;
     if (c07) pgm::verif::SegLog<K>::sink = &sessions;
     StaticProbe<K, Eps, ER, F> idx;
